@@ -157,9 +157,41 @@ PROPS = {
              COMMON_ASSUME + ["rounds are recognised structurally (a template id repeating starts a new round), not by wall-clock gaps",
                               "loss of a datagram on loopback makes a refresh session inconclusive"],
              "runtime monitor: per-datagram parser + refresh-round model + prefix-of-acknowledged-sends model at a raw peer; goroutine leak probe; race detector"),
+    "C05": P(False, (8, 16), 16, (1200, 5400), 8000, 4000, "exploration",
+             "one evaluation = one history of 6..45 operations {record for (flow, reporting node), reset(flow) through ForAllRecordsDo + "
+             "ResetStatAndThroughputElementsInRecord, expire-and-recreate everything} over 2..6 of six 5-tuples (3 IPv4, 3 IPv6, two differing "
+             "only in a port) on a real AggregationProcess; flow types intra/inter/to-external/from-external, all rule-action pairs (so "
+             "correlated and single-stream flows), records generated under the stated exporter contract (per node end times strictly "
+             "increasing, totals non-decreasing, end > start) in two labelled families: coherent (globally increasing end times and totals: "
+             "exact oracle for the common totals) and skewed (independent per-node streams: accept-set for the common totals, ties in end "
+             "time accept either node). After EVERY operation: touched flow == reference aggregator field by field (per-node end, totals, "
+             "delta sums since reset mod 2^64, throughput = 8*growth/dt with the first-record convention of the suite; common end, totals, "
+             "deltas, throughput and tcpState following the node with the latest end time; flow identity), every other flow unchanged "
+             "(deep comparison of all fields), GetNumFlows == live 5-tuples, reset changes delta/throughput fields only. Non-trivial = >= 2 "
+             "records on one flow; distinct by hash of the history.",
+             COMMON_ASSUME + ["totals stay below 2^60 (octet growth >= 2^61 between two records would overflow the library's 64-bit product; not generated)",
+                              "flowEndReason stickiness and httpVals merging are not in the statement and are not asserted",
+                              "contract-violating inputs (out-of-order records of one node) are outside the statement and are not generated"],
+             "runtime monitor: reference aggregator (from the statement, with accept-sets where it is silent) compared after every operation"),
+    "C06": P(False, (8, 16), 16, (1200, 5400), 50000, 20000, "fault_enumeration",
+             "one evaluation = one history over {Rec(k), Adv(A/2|A|I|A+I) (virtual time: VerifShiftDeadlines hook; A=100 min, I=60 min), "
+             "Scan(callback fails on a chosen set of keys)} on a real AggregationProcess with always-ready (intra-node) flows. After EVERY "
+             "operation (VerifSnapshot hook, under the process's own mutex): every held flow has exactly one queue entry whose index, key "
+             "and back-reference match, every queue entry refers to a held flow, heap order holds, deadlines == model (active set at "
+             "creation and re-armed after an active export, inactive pushed back by every record), advertised time to next expiry == "
+             "MinExpiryTime + (earliest - now). Every scan: callbacks only for flows with a passed deadline, all of them when no callback "
+             "fails, ascending deadline order (ties free), none twice, inactive expiry removes / active expiry keeps and re-arms; after a "
+             "failed callback the flow must still be held and scheduled. Exhaustive: all words to the stated depth over 2 (and 3) keys "
+             "with every failing-key set; random: length <= 60 over 8 keys. Non-trivial = >= 1 scan with >= 1 callback; distinct by the word.",
+             COMMON_ASSUME + ["a history runs in microseconds of real time while deadlines are minutes apart, so real-time comparisons in the code agree with the virtual-minute model"],
+             "runtime monitor: deadline model + structural invariants of map/heap at a hook after every operation; injected callback failures; bounded-exhaustive + random histories"),
 }
 
 LEVEL_TEXT = {
+    "C06": "Held on every history explored: every combination of arrivals, time advances and failing callbacks to the stated depth over "
+           "2-3 keys, random beyond. Callback failures are injected at every position a scan offers, which is what the suite never does.",
+    "C05": "Held on every history explored, with the full aggregated record compared after every single operation. The aggregation "
+           "state is driven only by the record/reset/expiry sequence, so random histories under the stated contract are the right level.",
     "C14": "Held on every session explored; timings of application sends relative to refresh ticks, connection checks, peer close and "
            "concurrent Close calls are sampled with different pacing per session, under the race detector.",
     "C12": "Held on every run explored. Schedules are sampled (client counts, pacing, GOMAXPROCS, Stop timing), not enumerated; unique "
